@@ -15,6 +15,7 @@ pub mod handleprops;
 pub mod pairprops;
 pub mod panicprops;
 pub mod pathprops;
+pub mod schedprops;
 pub mod timeprops;
 pub mod treeprops;
 pub mod xferprops;
@@ -25,6 +26,8 @@ pub fn run_check(ctx: &Ctx, id: &str) -> i32 {
         "C04" => handleprops::run_c04(ctx),
         "C14" => handleprops::run_c14(ctx),
         "C02" => pairprops::run_c02(ctx),
+        "C16" => schedprops::run_c16(ctx),
+        "C17" => schedprops::run_c17(ctx),
         "C13" => panicprops::run_c13(ctx),
         "C11" => xferprops::run_c11(ctx),
         "C19" => timeprops::run_c19(ctx),
